@@ -20,7 +20,7 @@ FORBIDDEN = re.compile(r'\bsorry\b|\badmit\b|^\s*axiom\s|native_decide|bv_decide
 ENV = dict(os.environ, CARGO_NET_OFFLINE='true')
 NCPU = os.cpu_count() or 4
 # properties whose case lines the translated-model driver drv_algo understands
-ALGO_PROPS = {'C01', 'C03', 'C04', 'C05', 'C06', 'C07', 'C08', 'C09', 'C10', 'C11', 'C12', 'C13', 'C14', 'C15', 'C16', 'C17', 'C18', 'C20'}
+ALGO_PROPS = {'C01', 'C02', 'C03', 'C04', 'C05', 'C06', 'C07', 'C08', 'C09', 'C10', 'C11', 'C12', 'C13', 'C14', 'C15', 'C16', 'C17', 'C18', 'C20'}
 
 
 def sh(cmd, cwd=None, timeout=None, input=None):
@@ -266,11 +266,19 @@ def check(pid, tier, seed):
     if hits:
         broken_ties.append('forbidden tokens in Lean sources: ' + '; '.join(hits[:5]))
     if tier == 'thorough' and ok_build:
-        rc, out = sh(['lake', 'env', 'leanchecker', 'BddVerif.Props.' + pid], cwd=LEAN, timeout=3000)
-        if rc != 0:
-            broken_ties.append('leanchecker:BddVerif.Props.%s: %s' % (pid, out[-300:]))
+        # independent re-check (leanchecker replays the compiled declarations through the kernel) of EVERY module of the
+        # project that the property's theorems and audit depend on, not only of the module that states them
+        mods = sorted(import_closure(['BddVerif.Props.' + pid, 'BddVerif.Audit.' + pid]))
+        def _lc(m):
+            return m, sh(['lake', 'env', 'leanchecker', m], cwd=LEAN, timeout=3000)
+        with lake_lock():
+            with concurrent.futures.ThreadPoolExecutor(max_workers=NCPU) as ex:
+                res = list(ex.map(_lc, mods))
+        badm = [(m, out) for m, (rc, out) in res if rc != 0]
+        if badm:
+            broken_ties.append('leanchecker: %d of %d modules rejected, e.g. %s: %s' % (len(badm), len(mods), badm[0][0], badm[0][1][-300:]))
         else:
-            notes.append('leanchecker BddVerif.Props.%s: ok' % pid)
+            notes.append('leanchecker: all %d modules in the import closure of Props.%s and Audit.%s re-checked ok' % (len(mods), pid, pid))
 
     # 3. correspondence + property predicate on the implementation's outputs
     ok_cargo, out_cargo = cargo_build(pid)
@@ -302,13 +310,17 @@ def check(pid, tier, seed):
         if 'Algo.lean' in regen.get('broken', {}):
             broken_ties.append('translator:Algo.lean: ' + regen['broken']['Algo.lean'])
         else:
-            # drv_algo3 ⊇ drv_algo2 ⊇ drv_algo (three batches of translated functions: Gen/Algo3.lean imports
+            # drv_algo4 ⊇ drv_algo3 ⊇ drv_algo2 ⊇ drv_algo (four batches of translated functions: Gen/Algo4.lean imports Algo3.lean imports
             # Algo2.lean imports Algo.lean); if a later batch does not translate or compile, fall back to the
             # earlier one and say so
-            cascade = ['drv_algo3', 'drv_algo2', 'drv_algo']
+            cascade = ['drv_algo4', 'drv_algo3', 'drv_algo2', 'drv_algo']
+            if 'Algo4.lean' in regen.get('broken', {}):
+                # fourth batch (owned iterators, rest of the public API, C02 history replay): drv_algo4 ⊇ drv_algo3
+                broken_ties.append('translator:Algo4.lean: ' + regen['broken']['Algo4.lean'])
+                cascade = cascade[1:]
             if 'Algo3.lean' in regen.get('broken', {}):
                 broken_ties.append('translator:Algo3.lean: ' + regen['broken']['Algo3.lean'])
-                cascade = cascade[1:]
+                cascade = ['drv_algo2', 'drv_algo']
             if 'Algo2.lean' in regen.get('broken', {}):
                 broken_ties.append('translator:Algo2.lean: ' + regen['broken']['Algo2.lean'])
                 cascade = ['drv_algo']
@@ -462,7 +474,7 @@ def setup():
     targets = []
     for p in claimed:
         targets += ['BddVerif.Props.' + p, 'BddVerif.Audit.' + p, 'drv_' + p.lower()]
-    ok, out = lake_build(targets + ['drv_algo', 'drv_algo2', 'drv_algo3'])
+    ok, out = lake_build(targets + ['drv_algo', 'drv_algo2', 'drv_algo3', 'drv_algo4'])
     if not ok:
         print(out[-3000:])
         for p in claimed:
